@@ -88,7 +88,7 @@ def to_json_dict(schema: Schema, m: Msg, aval: Dict[str, Any], names: str = "jso
         if f.name not in norm:
             continue
         v = norm[f.name]
-        key = _camel(f.name) if names == "json" else f.name
+        key = _camel(f.pname) if names == "json" else f.pname
         if f.card == "repeated":
             out[key] = [elem_json(schema, f.kind, x) for x in v]
         elif f.card == "map":
@@ -157,7 +157,7 @@ def _elem_shape(schema: Schema, kind: str, x: Any, where: str, errs: List[str]) 
 
 def shape_errors(schema: Schema, m: Msg, d: Dict[str, Any], path: str = "") -> List[str]:
     errs: List[str] = []
-    by_key = {_camel(f.name): f for f in m.fields}
+    by_key = {_camel(f.pname): f for f in m.fields}
     for k, v in d.items():
         if not isinstance(k, str):
             errs.append(f"{path}{k!r}: non-string key")
